@@ -49,6 +49,28 @@ theorem rawClientHello_total (raw : Bytes) (blunt pad realPSK : Bool) :
 
 example : fromRaw [22, 3, 1, 0, 0, 1, 0, 0, 0, 3, 3] false false = .err := by decide
 
+/-- the one panic site *inside* a `Write`: the ECH decoder calls `cipherLen` on the AEAD id read from
+the wire. Its id validation admits exactly the three ids `cipherLen` supports, so for **every** body
+(every 16-bit KDF/AEAD value, registry-listed or not) the call is reached only with a supported id:
+whenever the decoder gets as far as accepting the body, `cipherLen` of the decoded id is safe. (A
+validation that admits more — e.g. every id of the IANA registry, which lists 0xFFFF "export-only" —
+breaks this.) -/
+theorem ech_write_cipherLen_safe (p : Bool) (bd : Bytes) (k a c : Nat) (enc pl : Bytes)
+    (h : write p 65037 bd = .ok (greaseECH k a c enc pl)) : (cipherLen a).Safe ∧ (k = 1 ∨ k = 2 ∨ k = 3) := by
+  simp only [write, Nat.reduceEqDiff, ↓reduceIte] at h
+  unfold write.greaseEch at h
+  repeat' split at h
+  all_goals first
+    | cases h
+    | skip
+  all_goals
+    refine ⟨?_, by omega⟩
+    unfold cipherLen
+    rw [if_pos (by omega)]
+    exact safe_ok _
+
+example : cipherLen 0xFFFF = .panic := by decide
+
 /-! ## totality of the tlsfingerprint.io map importer -/
 
 private theorem writeOf_safe (id : Nat) (d : Bytes) : (writeOf id d).Safe := by
